@@ -461,7 +461,16 @@ fn fp_consumers(r: &mut Report) {
     use re::math::angle::{degs, rads, turns};
     use re::math::vec::vec3;
     use re::render::tex::SamplerClamp;
-    // Angle::wrap
+    wrap_consumers(r);
+    let _ = (degs(1.0), rads(1.0));
+    norm_consumers(r);
+    clamp_consumers(r);
+}
+
+/// Angle::wrap through this configuration's float backend (rem_euclid of the selected module).
+#[cfg(not(feature = "cfg_none"))]
+fn wrap_consumers(r: &mut Report) {
+    use re::math::angle::turns;
     let rel = if cfg!(feature = "cfg_mm") { 1e-4 } else { 1e-4 };
     for k in -480..=480 { for (mn, mx) in [(0.0f32, 1.0f32), (-0.5, 0.5), (-0.25, 0.75), (1.0, 3.0), (-10.0, -9.0)] {
         r.eval();
@@ -484,8 +493,11 @@ fn fp_consumers(r: &mut Report) {
             }
         }
     }}
-    let _ = (degs(1.0), rads(1.0));
-    norm_consumers(r);
+}
+
+#[cfg(not(feature = "cfg_none"))]
+fn clamp_consumers(r: &mut Report) {
+    use re::render::tex::SamplerClamp;
     // clamp sampler
     for (w, h) in [(1u32, 1u32), (2, 3), (5, 4), (8, 8)] {
         let tex = Texture::from(Buf2::new_with((w, h), |x, y| (x, y)));
@@ -563,6 +575,42 @@ fn run_xform(cfg: &Cfg) -> ! {
     rep.merge(par_range(cfg, 49 * 5, xform_case));
     rep.sample(0, || obj! {"configuration" => CFG_NAME, "orient_y" => "new y = (1,2,3)/|..|, x hint = (-1,1,0.5)/|..|"});
     let rule = format!("configuration {CFG_NAME}: orient_y and orient_z over all ordered pairs of 7 directions (non-perpendicular hints included; parallel pairs skipped), rotate_x/y/z over 49 angles: determinant 1 and orthonormal columns within the backend's accuracy class (2e-5; micromath 8e-3). non-trivial = matrix judged.");
+    rep.finish(cfg, "exploration", &rule, &["accuracy class per backend as in C20"]);
+}
+
+#[cfg(not(feature = "cfg_none"))]
+fn wrapdeg_consumers(r: &mut Report) {
+    use re::math::angle::{degs, rads};
+    // the same clause in degrees and radians over off-lattice inputs and intervals
+    for k in -2000..=2000i32 { for (mn, mx) in [(0.0f32, 360.0f32), (-180.0, 180.0), (-91.3, 17.7), (1000.0, 1001.5)] {
+        r.eval();
+        let x = k as f32 * 7.77 + 0.013;
+        let case = obj! {"kind" => "wrapdeg", "k" => k, "mn" => fbits(mn), "mx" => fbits(mx)};
+        let key = format!("consumer-wrap|degs|k={k}|{mn}..{mx}");
+        let res = caught(|| (degs(x).wrap(degs(mn), degs(mx)).to_degs(), rads(x.to_radians()).wrap(rads(mn.to_radians()), rads(mx.to_radians())).to_degs()));
+        match res {
+            Err(p) => r.violation(key, format!("[{CFG_NAME}] wrap panicked: {p}"), case),
+            Ok((w, w2)) => {
+                let len = (mx - mn) as f64;
+                let slack = 1e-5 * (x.abs() as f64 + mn.abs() as f64 + len);
+                let bad = |w: f32| { let q = (x as f64 - w as f64) / len; !((w as f64) >= mn as f64 - slack && (w as f64) <= mx as f64 + slack) || (q - q.round()).abs() * len > 4.0 * slack };
+                if bad(w) || bad(w2) { r.violation(key, format!("[{CFG_NAME}] degs({x}).wrap({mn},{mx}) = {w} deg (radian spelling: {w2} deg)"), case); }
+                else if x < mn || x >= mx { r.nontrivial(); }
+            }
+        }
+    }}
+}
+
+#[cfg(not(feature = "cfg_none"))]
+fn run_angle(cfg: &Cfg) -> ! {
+    let mut rep = Report::new();
+    rep.set("configuration", CFG_NAME);
+    let mut r = Report::new();
+    wrap_consumers(&mut r);
+    wrapdeg_consumers(&mut r);
+    rep.merge(r);
+    rep.sample(0, || obj! {"configuration" => CFG_NAME, "wrap" => "degs(-1891.3).wrap(degs(0), degs(360))"});
+    let rule = format!("configuration {CFG_NAME}: Angle::wrap through this configuration's rem_euclid: turns(k/48) for |k| <= 480 into 5 intervals, and degs(7.77 k + 0.013) for |k| <= 2000 into 4 intervals in degree and radian spellings: result inside the interval (slack 1e-5 of the magnitudes involved), congruent to the input modulo the interval length, no panic. non-trivial = input outside the interval.");
     rep.finish(cfg, "exploration", &rule, &["accuracy class per backend as in C20"]);
 }
 
@@ -644,6 +692,8 @@ fn replay_case(case: &J, r: &mut Report) {
         "tri" => { let v: Vec<i32> = case.get("t").unwrap().as_arr().unwrap().iter().map(|x| x.as_i64().unwrap() as i32).collect(); tri_cover([(v[0], v[1]), (v[2], v[3]), (v[4], v[5])], r) }
         "tex" => { let g = |k: &str| case.get(k).unwrap().as_u64().unwrap() as u32; let tex = Texture::from(Buf2::new_with((g("w"), g("h")), |x, y| (x, y))); tex_case(&tex, fb("u"), fb("v"), r) }
         #[cfg(not(feature = "cfg_none"))]
+        "wrapdeg" => { let mut rr = Report::new(); wrapdeg_consumers(&mut rr); for (k, v) in rr.viols { r.violation(k, v.what, v.case); } }
+        #[cfg(not(feature = "cfg_none"))]
         "wrap" | "norm" | "clamp" => { let mut rr = Report::new(); fp_consumers(&mut rr); for (k, v) in rr.viols { r.violation(k, v.what, v.case); } }
         #[cfg(feature = "cfg_libm")]
         "atan2" if s("backend") == "libm" => check_atan2("libm", float::libm::atan2, fb("y"), fb("x"), Bound::Ulps(4), r, &me),
@@ -659,13 +709,15 @@ fn replay_case(case: &J, r: &mut Report) {
 
 fn main() {
     report::install_panic_hook();
-    let cfg = Cfg::from_args(|s| if s.starts_with("color") { "C16".into() } else if s.starts_with("tex") { "C12".into() } else if s.starts_with("prng") { "C19".into() } else if s.starts_with("xform") { "C09".into() } else if s.starts_with("cover") { "C04".into() } else { "C20".into() });
+    let cfg = Cfg::from_args(|s| if s.starts_with("color") { "C16".into() } else if s.starts_with("tex") { "C12".into() } else if s.starts_with("prng") { "C19".into() } else if s.starts_with("xform") { "C09".into() } else if s.starts_with("cover") { "C04".into() } else if s.starts_with("angle") { "C18".into() } else { "C20".into() });
     if cfg.replay.is_some() { replay_main(&cfg, replay_case); }
     if cfg.part.starts_with("color") { run_color(&cfg); }
     if cfg.part.starts_with("tex") { run_tex(&cfg); }
     #[cfg(not(feature = "cfg_none"))]
     if cfg.part.starts_with("prng") { run_prng(&cfg); }
     if cfg.part.starts_with("cover") { run_cover(&cfg); }
+    #[cfg(not(feature = "cfg_none"))]
+    if cfg.part.starts_with("angle") { run_angle(&cfg); }
     #[cfg(not(feature = "cfg_none"))]
     if cfg.part.starts_with("xform") { run_xform(&cfg); }
     let mut rep = Report::new();
